@@ -2,7 +2,8 @@
    Proofs only (concrete states evaluated with vm_compute). *)
 From Coq Require Import List NArith ZArith Bool Lia.
 From YK Require Import Base.Int64 Base.Res Base.ResSpec Base.ResLemmas Base.Int64Laws
-     Ugm.Tracker Ugm.Manager Ugm.UgmSpec Ugm.TrackerFacts Ugm.TreeInv Ugm.Enforce Ugm.Conserve Ugm.ConserveM Ugm.ConserveEx.
+     Ugm.Tracker Ugm.Manager Ugm.UgmSpec Ugm.TrackerFacts Ugm.TreeInv Ugm.Enforce Ugm.Conserve Ugm.ConserveM Ugm.ConserveEx
+     Ugm.Reload Ugm.ReloadFirst.
 Import ListNotations.
 Open Scope N_scope.
 
@@ -192,4 +193,25 @@ Example group_stable_example :
 Proof.
   exists (ugm_increase (fst (ugm_headroom ex_s0 [0; 1] 1 ex_user)) [0; 1] 1 (Some [(0, 3%Z)]) ex_user).
   eexists. split; [vm_compute; reflexivity|]. split; [vm_compute; left; reflexivity|vm_compute; reflexivity].
+Qed.
+
+(* reload_exact_partial: a configuration with a named user, the user wild card, a named group and
+   the group wild card on the root queue, loaded first, then a history in nested queues *)
+Definition exr_conf : qconf :=
+  QConf 1000 [mkLim [2] [] (Some [(0, 10%Z)]) 2; mkLim [] [2] (Some [(0, 6%Z)]) 0;
+              mkLim [1] [] (Some [(0, 4%Z)]) 0; mkLim [] [1] (Some [(1, 3%Z)]) 1]
+    [QConf 1 [] [QConf 3 [] []]].
+Definition exr_ops : list op :=
+  [OCanRun [0; 1; 3] 1 (2, [2]); OHeadroom [0; 1; 3] 1 (2, [2]); OInc [0; 1; 3] 1 (Some [(0, 3%Z)]) (2, [2]) true;
+   OHeadroom [0; 1; 3] 2 (3, [3]); OInc [0; 1; 3] 2 (Some [(0, 2%Z)]) (3, [3]) true;
+   ODec [0; 1; 3] 2 (Some [(0, 2%Z)]) (3, [3]) true].
+Example reload_exact_partial_example :
+  root_only exr_conf /\ qlower 1000 = ROOT /\ no_config exr_ops /\
+  exists s, run ugm_init (OConfig exr_conf 1000 :: exr_ops) = Some s /\
+    in_force s (User 2) [0] = (Some [(0, 10%Z)], 2) /\ in_force s (User 3) [0] = (Some [(0, 4%Z)], 0) /\
+    in_force s (Group 1) [0] = (Some [(1, 3%Z)], 1) /\ in_force s (User 3) [0; 1; 3] = no_limit.
+Proof.
+  split; [split; reflexivity|]. split; [reflexivity|].
+  split; [intros o Hin; repeat (destruct Hin as [<-|Hin]; [exact I|]); contradiction|].
+  eexists. split; [vm_compute; reflexivity|]. repeat split; vm_compute; reflexivity.
 Qed.
